@@ -238,6 +238,18 @@ def rule_offsets(facts):
     return r
 
 
+def _ok_srcs(b):
+    out = []
+    for blk in b.blocks:
+        if blk.cleanup:
+            continue
+        for s in blk.stmts:
+            if s.k == "assign" and s.place.local == 0 and not s.place.proj and s.rv.k == "aggregate" and s.rv.agg == "adt" and \
+                    s.rv.adt_name.endswith("Result") and s.rv.variant == 0:
+                out.append(blk.idx)
+    return out
+
+
 def rule_reset(facts):
     """The bound `bytes produced` is counted since the last dictionary reset: the reset must happen for exactly the
     control bytes the format prescribes (C02.R1, dictionary part) and must empty the window."""
@@ -258,10 +270,17 @@ def rule_reset(facts):
                   pat.has_field(tm.of_operand(blk.term.args[0]), "buf")]
         zero = [s for blk in b.blocks for s in blk.stmts if s.k == "assign" and s.place.proj and s.place.proj[-1][0] == "field" and
                 s.place.proj[-1][2] == "len" and s.rv.k == "use" and s.rv.op.const_int() == 0]
-        if clears and zero:
-            r.ok("effect", {"reset": "buf.clear(); len = 0"})
+        c = cfg(b)
+        zb = [blk.idx for blk in b.blocks for s in blk.stmts if s.k == "assign" and s.place.proj and s.place.proj[-1][0] == "field" and
+              s.place.proj[-1][2] == "len" and s.rv.k == "use" and s.rv.op.const_int() == 0]
+        oks = [x for x in c.returns if flow.reaches_ok(b, x)] or c.returns
+        on_all = bool(clears) and bool(zb) and not any(x in c.reachable_from(0, avoid=[y.idx for y in clears]) for x in _ok_srcs(b)) and \
+            not any(x in c.reachable_from(0, avoid=zb) for x in _ok_srcs(b))
+        if on_all:
+            r.ok("must-pass", {"reset": "every successful path clears buf and zeroes len"})
         else:
-            r.bad("reset|effect", "a dictionary reset does not empty the window (buf cleared: %s, len zeroed: %s)" % (bool(clears), bool(zero)), pat.where(b))
+            r.bad("reset|effect", "a dictionary reset can succeed without emptying the window (buf cleared on every path: %s; len zeroed: %s): the "
+                  "distance guards keep counting bytes from before the reset" % (bool(clears) and not any(x in c.reachable_from(0, avoid=[y.idx for y in clears]) for x in _ok_srcs(b)), bool(zb)), pat.where(b))
     if not r.findings:
         r.ok("evaluation", {"dictionary reset": "for exactly the control bytes >= 0xE0 and status 1"})
     return r
